@@ -40,6 +40,25 @@ pub struct SimCase {
     /// how the lines are written: 0 "t,s", 1 "t,sn", 2 "t,s,1500" (a size column)
     #[serde(default)]
     pub line_style: u8,
+    /// when > 0 the trace is this many back-to-back copies of `trace` (very long inputs without
+    /// very long case files)
+    #[serde(default)]
+    pub repeat: u32,
+}
+
+/// the packets of the input: `trace`, or `repeat` copies of it one millisecond apart
+pub fn effective_trace(c: &SimCase) -> Vec<(u64, bool)> {
+    if c.repeat <= 1 {
+        return c.trace.clone();
+    }
+    let period = c.trace.last().map(|x| x.0).unwrap_or(0) + 1_000_000;
+    let mut out = Vec::with_capacity(c.trace.len() * c.repeat as usize);
+    for r in 0..c.repeat as u64 {
+        for (t, s) in &c.trace {
+            out.push((t + r * period, *s));
+        }
+    }
+    out
 }
 
 #[derive(Clone, Debug, PartialEq, Eq, Hash)]
@@ -79,7 +98,7 @@ pub fn trace_text(trace: &[(u64, bool)]) -> String {
 /// padding lines merged in by time.
 pub fn case_text(c: &SimCase) -> String {
     let mut lines: Vec<(u64, String)> = vec![];
-    for (t, sent) in &c.trace {
+    for (t, sent) in &effective_trace(c) {
         let d = match (c.line_style % 3, *sent) {
             (1, true) => "sn",
             (1, false) => "rn",
@@ -107,7 +126,7 @@ pub fn build_queue(c: &SimCase) -> (SimQueue, Option<Instant>) {
         // anchor far enough from "now" that subtracting the delay cannot underflow
         let anchor = Instant::now() + Duration::from_secs(3600);
         let mut sq = SimQueue::new();
-        for (t, sent) in &c.trace {
+        for (t, sent) in &effective_trace(c) {
             let ts = anchor + Duration::from_nanos(*t);
             if *sent {
                 sq.push(maybenot::TriggerEvent::NormalSent, true, false, ts, Duration::ZERO);
